@@ -817,7 +817,15 @@ func (c *FnCtx) store(st *State, p VPtr, v Val) {
 		c.obligeFresh(st, fam, idx[0], c.curInstr)
 	}
 	if sl, ok := v.(VSlice); ok && c.eng.cs.Regions[fam] != "" && sl.Reg != c.eng.cs.Regions[fam] {
-		c.assumptions["ownership: a slice stored into "+fam+" hands its backing array over to the read-only region "+c.eng.cs.Regions[fam]] = true
+		c.assumptions["ownership: a slice stored into "+fam+" hands its backing array over to the read-only region "+c.eng.cs.Regions[fam]+" (the array is never written again; the region holds its contents at the hand-over)"] = true
+		if sl.Reg == "" {
+			// the region's view of this array is its content now
+			reg := c.eng.cs.Regions[fam]
+			for _, l := range c.leavesOf(sl.Elem) {
+				ms := mapSort(2, l.sort)
+				c.assume(st, eq(sel(c.heapGet(st, elemFam(sl.Elem, reg)+l.suffix, ms), sl.Base), sel(c.heapGet(st, elemFam(sl.Elem, "")+l.suffix, ms), sl.Base)))
+			}
+		}
 	}
 	c.valToLeaves(v, t, fam, func(name, sort, term string) {
 		ms := mapSort(len(idx), sort)
